@@ -22,11 +22,74 @@ class Refs:
                     if not parts:
                         continue
                     if parts[0] in self.scope_locals(mod, node):
+                        r = self._resolve_local_import(mod, node, parts)
+                        if r is not None:
+                            self.resolved[node] = r
+                            self.by_name.setdefault(r, []).append((mod, node))
                         continue
                     r = prog.resolve_expr(mod, node)
                     if r is not None:
                         self.resolved[node] = r
                         self.by_name.setdefault(r, []).append((mod, node))
+
+    def _local_imports(self, mod: Module, f: ast.AST) -> Dict[str, str]:
+        """Names bound in function ``f`` by import statements only (never otherwise stored): name -> canonical target."""
+        cache = self.__dict__.setdefault("_limp_cache", {})
+        if f in cache:
+            return cache[f]
+        imp: Dict[str, str] = {}
+        stored = set()
+        a = f.args
+        for x in a.posonlyargs + a.args + a.kwonlyargs + ([a.vararg] if a.vararg else []) + ([a.kwarg] if a.kwarg else []):
+            stored.add(x.arg)
+        body = [f.body] if isinstance(f, ast.Lambda) else f.body
+        stack = list(body)
+        while stack:
+            n = stack.pop()
+            if isinstance(n, (ast.FunctionDef, ast.AsyncFunctionDef, ast.ClassDef)):
+                stored.add(n.name)
+                continue
+            if isinstance(n, ast.Lambda):
+                continue
+            if isinstance(n, ast.Import):
+                for al in n.names:
+                    if al.asname:
+                        imp[al.asname] = al.name
+                    else:
+                        imp[al.name.split(".")[0]] = al.name.split(".")[0]
+            elif isinstance(n, ast.ImportFrom):
+                src = self.prog._abs_module(mod, n.level, n.module)
+                for al in n.names:
+                    if al.name != "*":
+                        r = self.prog._resolve_from(src, al.name, 0)
+                        if r is not None:
+                            imp[al.asname or al.name] = r
+            elif isinstance(n, ast.Name) and isinstance(n.ctx, (ast.Store, ast.Del)):
+                stored.add(n.id)
+            elif isinstance(n, ast.ExceptHandler) and n.name:
+                stored.add(n.name)
+            stack.extend(ast.iter_child_nodes(n))
+        out = {k: v for k, v in imp.items() if k not in stored}
+        cache[f] = out
+        return out
+
+    def _resolve_local_import(self, mod: Module, node: ast.AST, parts) -> Optional[str]:
+        """Resolve a name chain whose root is bound by a function-level import (innermost binding scope wins)."""
+        f = mod.enclosing_function(node)
+        while f is not None:
+            if f not in self._locals_cache:
+                self._locals_cache[f] = local_names(f)
+            if parts[0] in self._locals_cache[f]:
+                cur = self._local_imports(mod, f).get(parts[0])
+                if cur is None:
+                    return None
+                for a in parts[1:]:
+                    cur = self.prog.resolve_attr(cur, a)
+                    if cur is None:
+                        return None
+                return cur
+            f = mod.enclosing_function(f)
+        return None
 
     def scope_locals(self, mod: Module, node: ast.AST) -> set:
         out = set()
